@@ -39,6 +39,14 @@
 /* ------------------------------------------------------------------ */
 #include "vctx.h"
 
+/* VIEW_AUTOMATA=1 (default): the harness reads the public fields of the automata objects the properties C12-C16
+ * name (automata.current_state/last_ts, mapping_state, band_state, session_table).  If a change to those structs
+ * keeps the harness from compiling, bin/vcommon.py rebuilds it with VIEW_AUTOMATA=0: the frame-level operations
+ * (everything C01-C10 and C17-C19 use) keep working, the automata view prints "view=off". */
+#ifndef VIEW_AUTOMATA
+#define VIEW_AUTOMATA 1
+#endif
+
 #define NCTX 8
 static vctx g_ctx[NCTX];
 
@@ -206,6 +214,7 @@ static void pr_mac(const uint8_t *m) { hexout(m, 6); }
 
 static void pr_led(void) { printf(" live=%ld bytes=%ld allocs=%ld sends=%ld", g_live, g_bytes, g_allocs, g_sends); }
 
+#if VIEW_AUTOMATA
 static void pr_autom(vctx *v) {
     automata *m = v->mappingAutomata, *s = v->sessionAutomata, *e = v->enumerationAutomata;
     if (m) {
@@ -237,6 +246,11 @@ static void pr_table(vctx *v) {
     }
     if (!any) putchar('-');
 }
+
+#else
+static void pr_autom(vctx *v) { (void)v; printf(" view=off"); }
+static void pr_table(vctx *v) { (void)v; printf(" tblview=off"); }
+#endif
 
 static vctx *ctx_of(const char *s) { int i = atoi(s); if (i < 0 || i >= NCTX) i = 0; return &g_ctx[i]; }
 
@@ -302,9 +316,12 @@ static void apply_cfg(char **tok, int ntok) {
     }
 }
 
+#if VIEW_AUTOMATA
 static session_entry *find_entry(vctx *v, const uint8_t *mac, unsigned gen) {
     return session_table_find(v->sessionTable, mac, (uint16_t)gen, 0);
 }
+
+#endif
 
 /* ------------------------------------------------------------------ */
 /* one operation                                                       */
@@ -376,6 +393,7 @@ static void run_op(char *line) {
         free(buf);
         printf("= ev=%d\n", ev);
     }
+#if VIEW_AUTOMATA
     else if (!strcmp(op, "esp32") && nt >= 4) {
         /* esp32 <ctx> <len> <hex>: the buffer is exactly len bytes long */
         vctx *v = ctx_of(tok[1]);
@@ -389,6 +407,7 @@ static void run_op(char *line) {
         free(buf);
         printf("="); pr_autom(v); putchar('\n');
     }
+#endif
     else if (!strcmp(op, "flow") && nt >= 4) {
         vctx *v = ctx_of(tok[1]);
         size_t n = 0;
@@ -410,6 +429,7 @@ static void run_op(char *line) {
         v->sessionTable = session_table_create();
         printf("="); pr_led(); pr_autom(v); pr_table(v); putchar('\n');
     }
+#if VIEW_AUTOMATA
     else if (!strcmp(op, "ctor")) {
         /* ctor <kind>: run one constructor under the current fault oracle, report, release */
         void *p = NULL; void *extra = NULL;
@@ -423,12 +443,16 @@ static void run_op(char *line) {
         if (p) lltd_port_free(p);
         pr_led(); putchar('\n');
     }
+#endif
     else if (!strcmp(op, "ss_map")) { vctx *v = ctx_of(tok[1]); switch_state_mapping(v->mappingAutomata, atoi(tok[2]), "v"); printf("="); pr_autom(v); putchar('\n'); }
     else if (!strcmp(op, "ss_sess")) { vctx *v = ctx_of(tok[1]); switch_state_session(v->sessionAutomata, atoi(tok[2]), "v"); printf("="); pr_autom(v); putchar('\n'); }
     else if (!strcmp(op, "ss_enum")) { vctx *v = ctx_of(tok[1]); switch_state_enumeration(v->enumerationAutomata, atoi(tok[2]), "v"); printf("="); pr_autom(v); putchar('\n'); }
+#if VIEW_AUTOMATA
     else if (!strcmp(op, "set_map")) { vctx *v = ctx_of(tok[1]); v->mappingAutomata->current_state = (uint8_t)atoi(tok[2]); v->mappingAutomata->last_ts = strtoull(tok[3], NULL, 10); printf("="); pr_autom(v); putchar('\n'); }
     else if (!strcmp(op, "set_sess")) { vctx *v = ctx_of(tok[1]); v->sessionAutomata->current_state = (uint8_t)atoi(tok[2]); v->sessionAutomata->last_ts = strtoull(tok[3], NULL, 10); printf("="); pr_autom(v); putchar('\n'); }
     else if (!strcmp(op, "set_enum")) { vctx *v = ctx_of(tok[1]); v->enumerationAutomata->current_state = (uint8_t)atoi(tok[2]); printf("="); pr_autom(v); putchar('\n'); }
+#endif
+#if VIEW_AUTOMATA
     else if (!strcmp(op, "st_add") && nt >= 5) {
         vctx *v = ctx_of(tok[1]); uint8_t mac[6] = {0}; unhex(tok[2], mac, 6);
         session_entry *e = session_table_add(v->sessionTable, mac, (uint16_t)atoi(tok[3]), (uint16_t)atoi(tok[4]));
@@ -452,7 +476,9 @@ static void run_op(char *line) {
         session_table_update_complete_status(v->sessionTable);
         printf("= ret=%d", e ? (int)(e - v->sessionTable->entries) : -1); pr_table(v); putchar('\n');
     }
+#endif
     else if (!strcmp(op, "st_clear")) { vctx *v = ctx_of(tok[1]); session_table_clear(v->sessionTable); printf("="); pr_table(v); putchar('\n'); }
+#if VIEW_AUTOMATA
     else if (!strcmp(op, "band_init")) { vctx *v = ctx_of(tok[1]); band_init_stats(v->enumerationAutomata->extra); printf("="); pr_autom(v); putchar('\n'); }
     else if (!strcmp(op, "band_hello")) { vctx *v = ctx_of(tok[1]); band_on_hello_received(v->enumerationAutomata->extra); printf("="); pr_autom(v); putchar('\n'); }
     else if (!strcmp(op, "band_update")) { vctx *v = ctx_of(tok[1]); band_update_stats(v->enumerationAutomata->extra); printf("="); pr_autom(v); putchar('\n'); }
@@ -463,9 +489,12 @@ static void run_op(char *line) {
         b->r = (uint32_t)strtoul(tok[2], NULL, 10); b->Ni = (uint32_t)strtoul(tok[3], NULL, 10); b->begun = atoi(tok[4]) != 0;
         printf("="); pr_autom(v); putchar('\n');
     }
+#endif
+#if VIEW_AUTOMATA
     else if (!strcmp(op, "map_charge")) { vctx *v = ctx_of(tok[1]); mapping_on_charge(v->mappingAutomata->extra); printf("="); pr_autom(v); putchar('\n'); }
     else if (!strcmp(op, "map_touch")) { vctx *v = ctx_of(tok[1]); mapping_reset_inactive_timeout(v->mappingAutomata->extra); printf("="); pr_autom(v); putchar('\n'); }
     else if (!strcmp(op, "map_reset_charge")) { vctx *v = ctx_of(tok[1]); mapping_reset_charge(v->mappingAutomata->extra); printf("="); pr_autom(v); putchar('\n'); }
+#endif
     else printf("= unknown-op\n");
     if (work != copy) free(work);
 }
